@@ -302,6 +302,15 @@ def cm_unflatten(metadata, children):
     return CM(children)
 
 
+@optree.dataclasses.dataclass(namespace='ns')
+class DC:
+    """optree dataclass in namespace 'ns': two child fields, one metadata field."""
+
+    a: object
+    b: object
+    m: str = optree.dataclasses.field(default='meta', pytree_node=False)
+
+
 class Reg:
     """Truth about one registration (reference model's view)."""
 
@@ -357,12 +366,6 @@ class Universe:
         self._add(CM, 'ns', cm_flatten, cm_unflatten, optree.accessor.AutoEntry, 'tag:CM@ns')
 
         import dataclasses as std_dc  # noqa: PLC0415
-
-        @optree.dataclasses.dataclass(namespace='ns')
-        class DC:
-            a: object
-            b: object
-            m: str = optree.dataclasses.field(default='meta', pytree_node=False)
 
         self.DC = DC
 
